@@ -61,6 +61,26 @@ Redirected(h1, h2) ==
                       got |-> {h1} \cup (IF r2[4] THEN {h2} ELSE {})]
   /\ act' = <<"Redirected", h1, h2>>
   /\ UNCHANGED <<presents, tofuOn>>
+\* the same, but the certificate h2 presents changes to c between the two connections (h2 may be h1 itself:
+\* a redirect to another path of the same capsule)
+RedirectRotate(h1, h2, c) ==
+  /\ Step /\ presents[h2] # c
+  /\ LET r1 == Connect("get", h1, pins) IN
+     IF ~r1[1] THEN /\ pins' = r1[3] /\ presents' = presents
+                    /\ last' = [op |-> "get", h |-> h1, ok |-> FALSE, err |-> r1[2], before |-> pins, shown |-> presents[h1], got |-> {}]
+     ELSE LET pr == [presents EXCEPT ![h2] = c]
+              c2 == pr[h2]
+              p1 == r1[3]
+              r2 == IF ~tofuOn THEN <<TRUE, "", p1, TRUE>>
+                    ELSE IF c2 = Bad THEN (IF DevUnreadableSkipsCheck THEN <<TRUE, "", p1, TRUE>> ELSE <<FALSE, "unreadable", p1, FALSE>>)
+                    ELSE IF p1[h2] = None THEN <<TRUE, "", [p1 EXCEPT ![h2] = c2], TRUE>>
+                    ELSE IF p1[h2] = c2 THEN <<TRUE, "", p1, TRUE>>
+                    ELSE <<FALSE, "changed", p1, FALSE>> IN
+          /\ pins' = r2[3] /\ presents' = pr
+          /\ last' = [op |-> "hop", h |-> h2, ok |-> r2[1], err |-> r2[2], before |-> p1, shown |-> c2,
+                      got |-> {h1} \cup (IF r2[4] THEN {h2} ELSE {})]
+  /\ act' = <<"RedirectRotate", h1, h2, c>>
+  /\ UNCHANGED tofuOn
 Rotate(h, c) == /\ Step /\ presents[h] # c /\ presents' = [presents EXCEPT ![h] = c] /\ last' = Idle
                 /\ act' = <<"Rotate", h, c>> /\ UNCHANGED <<pins, tofuOn>>
 Trust(h, c)  == /\ Step /\ tofuOn /\ pins' = [pins EXCEPT ![h] = c] /\ last' = Idle
@@ -72,6 +92,9 @@ Clear        == /\ Step /\ tofuOn /\ pins' = [h \in HP |-> None] /\ last' = Idle
 \* import of a file with the single entry (h, c); conflicts are skipped (no callback)
 ImportMerge(h, c)   == /\ Step /\ tofuOn /\ pins' = (IF pins[h] = None THEN [pins EXCEPT ![h] = c] ELSE pins) /\ last' = Idle
                        /\ act' = <<"ImportMerge", h, c>> /\ UNCHANGED <<presents, tofuOn>>
+\* merge import whose conflict callback says "update": the file's fingerprint replaces the pin
+ImportUpdate(h, c)  == /\ Step /\ tofuOn /\ pins' = [pins EXCEPT ![h] = c] /\ last' = Idle
+                       /\ act' = <<"ImportUpdate", h, c>> /\ UNCHANGED <<presents, tofuOn>>
 ImportReplace(h, c) == /\ Step /\ tofuOn /\ pins' = [x \in HP |-> IF x = h THEN c ELSE None] /\ last' = Idle
                        /\ act' = <<"ImportReplace", h, c>> /\ UNCHANGED <<presents, tofuOn>>
 Next == \/ \E ep \in {"get", "upload"}, h \in HP : Call(ep, h)
@@ -83,6 +106,8 @@ Next == \/ \E ep \in {"get", "upload"}, h \in HP : Call(ep, h)
         \/ Clear
         \/ \E h \in HP, c \in Certs : ImportMerge(h, c)
         \/ \E h \in HP, c \in Certs : ImportReplace(h, c)
+        \/ \E h \in HP, c \in Certs : ImportUpdate(h, c)
+        \/ \E h1 \in HP, h2 \in HP, c \in Certs \cup {Bad} : RedirectRotate(h1, h2, c)
 Spec == Init /\ [][Next]_vars
 \* ---- properties (C03) ----
 Called == last.op # "none" /\ tofuOn
@@ -97,5 +122,7 @@ UnreadableRefused == (Called /\ last.shown = Bad) => ~last.ok
 \* C11 over histories: a host whose certificate failed verification has received nothing
 \* (whatever the call returned: a host presenting a certificate that is not acceptable never receives request bytes)
 Unacceptable == last.shown = Bad \/ last.before[last.h] \notin {None, last.shown}
-NothingToUnverified == (Called /\ Unacceptable) => last.h \notin last.got
+\* (for a redirect back to the same host:port the first, acceptable, connection did receive its request: op = "hop" with
+\*  last.h among the earlier hops is judged by the driver per connection)
+NothingToUnverified == (Called /\ Unacceptable /\ ~(last.op = "hop" /\ act[1] = "RedirectRotate" /\ act[2] = act[3])) => last.h \notin last.got
 =============================================================================
